@@ -22,6 +22,7 @@ type c06Sess struct {
 }
 
 type c06Params struct {
+	NilH     bool // the plugin returns a nil UpdateMessageHandler
 	Dir      string
 	LocalH   int
 	Sessions []c06Sess
@@ -45,6 +46,7 @@ func c06World(t *testing.T, p c06Params) rt.Result {
 		ps.Hold = p.LocalH
 		ps.Passive = p.Dir == "in"
 		ps.IdleHold = time.Second
+		ps.Cfg.NilHandler = p.NilH
 		var wmu sync.Mutex
 		var curLocal string
 		var curH time.Duration
@@ -234,7 +236,7 @@ func c06World(t *testing.T, p c06Params) rt.Result {
 			}
 		}
 	})
-	return worldResult(out, true, fmt.Sprintf("|%s %d %v", p.Dir, p.LocalH, p.Sessions), map[string]int{"sessions": len(p.Sessions), "expiries_observed": nExp, "keepalives_observed": nKA})
+	return worldResult(out, true, fmt.Sprintf("|%s %d %v %v", p.Dir, p.LocalH, p.Sessions, p.NilH), map[string]int{"sessions": len(p.Sessions), "expiries_observed": nExp, "keepalives_observed": nKA})
 }
 
 func tail(ms []hz.RMsg, n int) string {
@@ -259,7 +261,7 @@ func TestC06(t *testing.T) {
 		for _, rh := range holds {
 			for ti, tr := range traffic {
 				for di, dir := range allDirs {
-					p := c06Params{Dir: dir, LocalH: lh, Sessions: []c06Sess{{rh, tr, locals[(ti+di+idx)%3]}}, Seed: uint64(idx)*40503 + c.Seed, Hook: hz.HookVSleep}
+					p := c06Params{Dir: dir, LocalH: lh, Sessions: []c06Sess{{rh, tr, locals[(ti+di+idx)%3]}}, Seed: uint64(idx)*40503 + c.Seed, Hook: hz.HookVSleep, NilH: idx%3 == 2}
 					i := idx
 					runCase(t, "grid", i, p, func(t *testing.T) rt.Result { return c06World(t, p) })
 					idx++
@@ -280,7 +282,7 @@ func TestC06(t *testing.T) {
 			}
 			return holds[r.IntN(len(holds)-1)] // 65535 only in the grid (a session lasts 18 virtual hours)
 		}
-		p := c06Params{Dir: allDirs[r.IntN(2)], LocalH: pick(), Seed: uint64(i)*69069 + c.Seed, Hook: hookMode(r)}
+		p := c06Params{Dir: allDirs[r.IntN(2)], LocalH: pick(), Seed: uint64(i)*69069 + c.Seed, Hook: hookMode(r), NilH: r.IntN(3) == 0}
 		for k := 1 + r.IntN(3); k > 0; k-- {
 			p.Sessions = append(p.Sessions, c06Sess{pick(), traffic[r.IntN(len(traffic))], locals[r.IntN(3)]})
 		}
